@@ -512,7 +512,7 @@ def run(ctx):
     add("s3f3", gen_scope(ctx, "s3f3", 3, 3, [3]), 3)  # n_node = n_face = n_edge = 3 occurs here
     add("s4f2", gen_scope(ctx, "s4f2", 4, 2, [3, 4], npat=2), 4, pick=None if thorough else 1200)
     if thorough:
-        add("s5f2", gen_scope(ctx, "s5f2", 5, 2, [3, 4, 5]), 5, pick=6000)
+        add("s5f2", gen_scope(ctx, "s5f2", 5, 2, [3, 4, 5], invs=["TypeOK", "L2_Partition", "L2_FaceAgg", "PaddingIrrelevant", "L2_EdgeAgg", "TracerReadable"]), 5, pick=5000)  # Laws / NonFinite / WholeTableIsWrong are proved on the other scopes
         add("c5f3", gen_scope(ctx, "c5f3", 5, 3, [3, 4, 5], canon=True, npat=2), 5, pick=4000)
         add("s4f3", gen_scope(ctx, "s4f3", 4, 3, [3, 4], invs=["TypeOK", "L2_Partition"]), 4, pick=3000)
     else:
